@@ -77,8 +77,11 @@ void CachePrivate::onTimeout()
             }
             ++i;
         } else {
-            emit q->recordExpired(i->record);
+            // Remove the record before announcing that it has expired so
+            // that it is no longer returned by lookups made from the slots
+            Record expiredRecord = i->record;
             i = entries.erase(i);
+            emit q->recordExpired(expiredRecord);
         }
     }
 
@@ -106,12 +109,14 @@ void Cache::addRecord(const Record &record)
                 (*i).record.type() == record.type()) ||
                 (*i).record == record) {
 
-            // If the TTL is set to 0, indicate that the record was removed
-            if (record.ttl() == 0) {
-                emit recordExpired((*i).record);
-            }
-
+            // Remove the record first, then (if the TTL is set to 0) indicate
+            // that it was removed - lookups made from the slots must no
+            // longer return it
+            Record removedRecord = (*i).record;
             i = d->entries.erase(i);
+            if (record.ttl() == 0) {
+                emit recordExpired(removedRecord);
+            }
         } else {
             ++i;
         }
